@@ -652,10 +652,10 @@ def corpus_transposition():
 
 
 # -------------------------------------------------------------------- batch
-def gen_batch(rng, tier):
+def gen_batch(rng, tier, unblurred_float=False):
     nf = rng.randint(3, 8)
     shape = (rng.randint(30, 50), rng.randint(30, 60))
-    dtype = rng.choice(['uint8', 'uint8', 'float64'])
+    dtype = 'float64' if unblurred_float else rng.choice(['uint8', 'uint8', 'float64'])
     frames = []
     for k in range(nf):
         r = rng.random()
@@ -668,7 +668,7 @@ def gen_batch(rng, tier):
         p['topn'] = 2
     if rng.random() < 0.3:
         p['characterize'] = False
-    if dtype == 'float64' and rng.random() < 0.6:
+    if dtype == 'float64' and (unblurred_float or rng.random() < 0.6):
         p['noise_size'] = 0          # no Gaussian blur: nothing may alias the caller's frames (they are reused across the runs)
         p['preprocess'] = True
     tagging = rng.choice(['none', 'none', 'frame_no', 'lossy', 'partial'])
@@ -1013,7 +1013,7 @@ def run(chk):
     nB = 10 if quick else 60
     procs = [1, 2, 4] if quick else [1, 2, 4, 'auto']
     for k in range(nB):
-        c = gen_batch(rng, chk.tier)
+        c = gen_batch(rng, chk.tier, unblurred_float=(k % 5 == 0))   # every fifth case: float64 frames, noise_size=0 (no blur: nothing may alias the frames)
         r = eval_batch(chk, c, procs if (quick and k < 6) or not quick else [1, 2])
         chk.count(('B', j_batch(c)), True)
         chk.tally('batch tagging=%s' % c['tagging'])
